@@ -2,7 +2,7 @@
    JSON text layer as in C05 (json.dumps / json.load hypothesis, validated by W-glencoe / R-glencoe). *)
 From Coq Require Import List Bool String ZArith Permutation.
 From FM Require Import Base.Result Model.Ast Model.FM Model.PFM Model.Sem Format.Glencoe Model.PyRt Model.Loc
-     Gen.Src_glencoe Proofs.GlencoeFacts Proofs.SrcGlencoeFacts.
+     Gen.Src_glencoe Gen.Src_glencoer Format.Json Proofs.GlencoeFacts Proofs.SrcGlencoeFacts Proofs.SrcGlencoeReaderFacts.
 Import ListNotations.
 Local Open Scope list_scope.
 
@@ -70,3 +70,15 @@ Example C08_nonvacuous :
   end = Some (glencoe_norm GlencoeExamples.m1).
 Proof. vm_compute. split; reflexivity. Qed.
 Print Assumptions C08_nonvacuous.
+
+(* the constraint part of the READER about the translated source (GlencoeReader._parse_ast_constraint, Gen/Src_glencoer.v): the
+   node the model reads is the node the code reads, a failure of the model is a failure of the code, and a library error of the
+   model is the code's; on malformed documents the model is coarser about the kind of exception
+   (src_glencoe_parse_ctc_error_kinds_differ: the translation was checked against the real code there) *)
+Theorem C08_source_reader_constraint : forall w fi v fuel fuel', (aval_depth v <= fuel)%nat -> (aval_depth v <= fuel')%nat ->
+  match glencoe_parse_ctc fuel' fi v with
+  | Ok n => py_GlencoeReader__parse_ast_constraint fuel w v fi = Ok n
+  | Err _ => exists e, py_GlencoeReader__parse_ast_constraint fuel w v fi = Err e
+  end.
+Proof. exact src_glencoe_parse_ctc. Qed.
+Print Assumptions C08_source_reader_constraint.
